@@ -561,7 +561,9 @@ def load_function(result=_AnyYAML, *args):     # type: ignore
             """
 
             if isinstance(source, Path):
-                with source.open('r') as f:
+                # binary, so that PyYAML detects the encoding and
+                # sees the line breaks, as for a binary stream
+                with source.open('rb') as f:
                     return cast(T, yaml.load(f, Loader=self.loader))
             else:
                 return cast(T, yaml.load(source, Loader=self.loader))
